@@ -37,8 +37,58 @@ def cell_ids(rng, n, style):
     return [ids[i] for i in order]
 
 
+H5_LAYOUTS = ['cols', 'rows', 'tall', 'wide', 'small', 'gzip']
+
+
+def relayout(path, key, layout):
+    """
+    rewrite the datasets of matrix `key` ('X' or 'layers/<name>') with a
+    chosen HDF5 storage layout (same values, same attributes)
+    """
+    import h5py
+    with h5py.File(path, 'a') as f:
+        obj = f[key]
+        if isinstance(obj, h5py.Dataset):
+            data = obj[()]
+            if data.size == 0:
+                return
+            nr, nc = data.shape
+            kw = {
+                'cols': {'chunks': (nr, 1)},
+                'rows': {'chunks': (1, nc)},
+                'tall': {'chunks': (nr, max(1, nc // 7))},
+                'wide': {'chunks': (max(1, nr // 3), nc)},
+                'small': {'chunks': (min(nr, 2), min(nc, 3))},
+                'gzip': {'chunks': True, 'compression': 'gzip'},
+            }[layout]
+            attrs = dict(obj.attrs)
+            del f[key]
+            ds = f.create_dataset(key, data=data, **kw)
+            for k, v in attrs.items():
+                ds.attrs[k] = v
+        else:
+            for name in ('data', 'indices', 'indptr'):
+                d = obj[name][()]
+                if d.size == 0:
+                    continue
+                n = len(d)
+                kw = {
+                    'cols': {'chunks': (min(n, 3),)},
+                    'tall': {'chunks': (min(n, 3),)},
+                    'small': {'chunks': (1,)},
+                    'rows': {'chunks': (n,)},
+                    'wide': {'chunks': (n,)},
+                    'gzip': {'chunks': True, 'compression': 'gzip'},
+                }[layout]
+                attrs = dict(obj[name].attrs)
+                del obj[name]
+                ds = obj.create_dataset(name, data=d, **kw)
+                for k, v in attrs.items():
+                    ds.attrs[k] = v
+
+
 def write_h5ad(path, X, obs_names, var_names, encoding='dense',
-               layer=None, obs_extra=None, x_dtype=None):
+               layer=None, obs_extra=None, x_dtype=None, h5_layout=None):
     """write a query / reference file with anndata (no dtype kwarg)"""
     X = np.asarray(X)
     if x_dtype is not None:
@@ -67,6 +117,9 @@ def write_h5ad(path, X, obs_names, var_names, encoding='dense',
         a = anndata.AnnData(X=dummy, obs=obs, var=var,
                             layers={layer: mat})
     a.write_h5ad(path)
+    if h5_layout is not None:
+        relayout(path, 'X' if layer is None else f'layers/{layer}',
+                 h5_layout)
 
 
 def write_stats_file(path, model, genes, profiles, n_cells, rng,
@@ -205,6 +258,7 @@ DEFAULT_SPEC = {
     'with_csv': True, 'with_hdf5': True, 'noise': 1.0,
     'collect': 'file',   # 'file' or 'manager' (direct call only)
     'max_gb': 1.0, 'n_extra_genes': None, 'extra_first': False,
+    'h5_layout': None,
 }
 
 
@@ -333,7 +387,7 @@ def build_world(spec, work):
     w.cell_ids = cell_ids(rng, n_cells, s['cell_id_style'])
     w.query_path = work / 'in' / 'query.h5ad'
     write_h5ad(w.query_path, Xq, w.cell_ids, query_genes,
-               encoding=s['encoding'])
+               encoding=s['encoding'], h5_layout=s.get('h5_layout'))
 
     # run configuration
     drop_level = None
@@ -548,7 +602,7 @@ def run_world(w, trace=True, plan=None, config=None):
 def derive_world(w, name, Xq=None, cell_ids=None, query_genes=None,
                  encoding=None, normalization=None, model=None,
                  stats_path=None, marker_table=None, ta_updates=None,
-                 cfg_updates=None, spec_updates=None):
+                 cfg_updates=None, spec_updates=None, h5_layout='inherit'):
     """
     a second world sharing w's inputs except for what is overridden; it gets
     its own out / scratch / trace / cwd directories under w.work/<name>
@@ -563,7 +617,10 @@ def derive_world(w, name, Xq=None, cell_ids=None, query_genes=None,
     for sub in ('in', 'out', 'scratch', 'trace', 'cwd'):
         (d.work / sub).mkdir(parents=True, exist_ok=True)
     new_query = any(x is not None for x in (Xq, cell_ids, query_genes,
-                                            encoding))
+                                            encoding)) \
+        or h5_layout != 'inherit'
+    if h5_layout != 'inherit':
+        d.spec['h5_layout'] = h5_layout
     if Xq is not None:
         d.Xq = Xq
     if cell_ids is not None:
@@ -577,7 +634,8 @@ def derive_world(w, name, Xq=None, cell_ids=None, query_genes=None,
     if new_query:
         d.query_path = d.work / 'in' / 'query.h5ad'
         write_h5ad(d.query_path, d.Xq, d.cell_ids, d.query_genes,
-                   encoding=d.spec['encoding'])
+                   encoding=d.spec['encoding'],
+                   h5_layout=d.spec.get('h5_layout'))
     if model is not None:
         d.model = model
     if stats_path is not None:
